@@ -851,7 +851,7 @@ def to_int(interp, v, base=None):
 
 
 _STR_UF = {}
-STRSORT = z3.DeclareSort('PyStr')
+STRSORT = sym.STRSORT
 
 
 def str_term(s):
@@ -918,6 +918,7 @@ def _arg_term(interp, a):
 def str_uf(interp, name, recv, *args, sort='int'):
     """An uninterpreted str method: the result is a function of the string values and the other
     arguments - nothing else is assumed about it."""
+    ctx().no_crosscheck = True  # the model's interpretation of an uninterpreted method is not CPython's
     ts = [str_term(recv)]
     for a in args:
         ts.extend(_arg_term(interp, a))
@@ -929,12 +930,7 @@ def str_uf(interp, name, recv, *args, sort='int'):
     return r
 
 
-class UStr:
-    """A string value known only as an uninterpreted term (result of an uninterpreted str method)."""
-    __slots__ = ('term',)
-
-    def __init__(self, term):
-        self.term = term
+UStr = sym.UStr
 
 
 # =============================================================================================
@@ -1010,7 +1006,7 @@ def _b_len(interp, c, args, kw):
     if is_str(v):
         return sym.s_len(v)
     if isinstance(v, UStr):
-        return sym.atom(z3.Function('str.len', STRSORT, sym.IntSort)(v.term))
+        return sym.s_len(v)
     if isinstance(v, PList):
         return len(v.items)
     if isinstance(v, tuple):
@@ -1467,6 +1463,36 @@ def str_method(interp, recv, name, args, kwargs):
         return r
     if name == 'encode':
         raise Unsupported('str.encode on symbolic string')
+    if kwargs:
+        raise Unsupported('str.%s with keyword arguments on symbolic string' % name)
+    if name in PURE_STR_METHODS_INT:
+        # assumed contract: the result is a function of the receiver and the arguments; find-like results are -1 or a
+        # position at which the pattern fits inside the text (and not before an integer start position)
+        r = sym.atom(str_uf(interp, name, recv, *args))
+        n = sym.s_len(recv)
+        if name == 'count':
+            c.assume(i_cmp('>=', r, 0))
+        else:
+            sub = args[0]
+            ls = sym.s_len(sub) if is_str(sub) else 0
+            c.assume(i_cmp('>=', r, -1))
+            c.assume(b_or(i_cmp('==', r, -1), i_cmp('<=', i_add(r, ls), n)))
+            if len(args) > 1 and args[1] is not None and is_int(args[1]):
+                st = args[1]
+                c.assume(b_or(i_cmp('==', r, -1), i_cmp('<', st, 0), i_cmp('>=', r, st)))
+            if name in ('index', 'rindex'):
+                if c.truth(i_cmp('==', r, -1)):
+                    raise PyExc('ValueError', 'substring not found', True)
+        return r
+    if name in PURE_STR_METHODS_BOOL:
+        r = str_uf(interp, name, recv, *args, sort='bool')
+        if name in ('startswith', 'endswith') and args and is_str(args[0]):
+            c.assume(z3.Implies(r, Z(i_cmp('<=', sym.s_len(args[0]), sym.s_len(recv)))
+                                if not isinstance(i_cmp('<=', sym.s_len(args[0]), sym.s_len(recv)), bool)
+                                else z3.BoolVal(i_cmp('<=', sym.s_len(args[0]), sym.s_len(recv)))))
+        return r
+    if name in PURE_STR_METHODS_STR:
+        return str_uf(interp, name, recv, *args, sort='str')
     raise Unsupported('str.%s on symbolic string' % name)
 
 
